@@ -1233,7 +1233,8 @@ def run(tier, seed):
         "accepted corner, modelled faithfully and stated by theorems: a suffix is compiled to re.escape(suffix)+'$' and `$` also matches before ONE "
         "trailing newline, so a file literally named 'a.js\\n' counts as ending with '.js' (both for allowed and for forbidden suffixes)",
         "compiled patterns given in the settings are opaque predicates on the path relative to the component directory; the theorems "
-        "quantify over arbitrary predicates, the correspondence uses four families (contains / ^prefix / suffix\\Z / (^|/)prefix)",
+        "quantify over arbitrary predicates, the correspondence uses four hand-matched families (contains / ^prefix / suffix\\Z / (^|/)prefix) plus arbitrary "
+        "user-compiled regexes (flags I/X/S/M, inline flags, groups, backreferences) that enter the model as the table of their OWN p.search verdicts",
         "os.path.exists / isdir are modelled by membership in the set of paths of the generated layout (per location: root, its directories, its files)",
         "the order of finder.locations is an input of the model (it is the iteration order of a Python set in get_component_dirs)",
         "the `prefix` branch of find_location is dead code (locations always carry prefix '') and is not modelled",
@@ -1256,7 +1257,9 @@ def run(tier, seed):
              "siblings. V: _is_path_valid on plain strings x configurations. J: safe_join+relpath on every string <= %d over {'/','.','a'} + random x 9 "
              "roots. Non-trivial: F = some but not all files listed and at least one lookup found and one refused as suspicious; V = name matches an "
              "allowed pattern; J = path has a '..' segment or is absolute. Distinct = distinct (layout, configuration, lookups) / (config, name) / "
-             "(root, path). Random layouts: %d quick / %d thorough."
+             "(root, path). Random layouts: %d quick / %d thorough. Patterns in the lists: suffix strings, four escaped-literal regex families, and "
+             "user-compiled regexes WITH flags / inline flags / groups / backreferences (several per list); `matches a pattern` is read as the "
+             "pattern's own p.search(name)."
              % (len(FILE_NAMES), L, 7 if thorough else 6, nq, N_RANDOM["thorough"]),
         explanation="Theorems of Props/C17.v re-checked by coqc (incl. anchors against the constants generated from the current source); "
                     "model evaluated by vm_compute inside Coq on every case and compared with the implementation; the direct oracle restates "
